@@ -82,7 +82,7 @@ func TestC03(t *testing.T) {
 	r.Require("unsat.prove-error", 50)
 	r.Require("c06.solutions-revalidated", 50)
 	r.Finish("exploration",
-		"per curve (3 quick / 7 thorough) and back-end: generated circuits — random API programs (incl. shapes without secret input, without public input, everything constant-folded), arithmetic circuits with 0..5 commitments over public / secret / earlier commitments, and (thorough) lookup/range-check/hint scenarios — each with satisfying assignments from the reference interpreter and non-satisfying ones (flipped public output, flipped secret), proved under option sets set consistently on both sides (default; SHA-256 / Keccak / SHA3 / MiMC-of-the-curve challenge, folding and hash-to-field functions; statistical zero-knowledge; solver task counts). Oracle: satisfiable => Setup, Prove, Verify all nil; unsatisfiable => Prove returns a non-nil error and no proof; documented refusals (PLONK Setup below 2 rows) are not violations; child crash = violation; watchdog without deadlock evidence = inconclusive. distinct = (curve, back-end, circuit, assignment, options)",
+		"per curve (3 quick / 7 thorough) and back-end: generated circuits — random API programs (incl. shapes without secret input, without public input, everything constant-folded), arithmetic circuits with 0..5 commitments over public / secret / earlier commitments, and (thorough) lookup/range-check/hint scenarios — each with satisfying assignments from the reference interpreter and non-satisfying ones (flipped public output, flipped secret), proved under option sets set consistently on both sides (default; SHA-256 / Keccak / SHA3 / challenge, folding and hash-to-field functions; statistical zero-knowledge; solver task counts). Oracle: satisfiable => Setup, Prove, Verify all nil; unsatisfiable => Prove returns a non-nil error and no proof; documented refusals (PLONK Setup below 2 rows) are not violations; child crash = violation; watchdog without deadlock evidence = inconclusive. distinct = (curve, back-end, circuit, assignment, options)",
 		[]string{"SRS from test/unsafekzg", "hash.Hash option objects are created per call"})
 }
 
@@ -144,7 +144,6 @@ func optionSets(c ecc.ID) []optset {
 		hashOpts("sha256/sha256/sha256", sha256.New, sha256.New, sha256.New),
 		hashOpts("keccak/keccak/keccak", sha3.NewLegacyKeccak256, sha3.NewLegacyKeccak256, sha3.NewLegacyKeccak256),
 		hashOpts("sha3-512/sha3-256/sha3-384", sha3.New512, sha3.New256, sha3.New384),
-		hashOpts("mimc/mimc/default", mimcOf(c), mimcOf(c), nil), // MiMC only hashes field-element blocks: usable for challenges and folding (as std/recursion does), not as bytes-to-field function
 		hashOpts("statistical-zk", nil, nil, nil, backend.WithStatisticalZeroKnowledge()),
 		hashOpts("tasks=1", nil, nil, nil, backend.WithSolverOptions(solver.WithNbTasks(1))),
 		hashOpts("tasks=3", nil, nil, nil, backend.WithSolverOptions(solver.WithNbTasks(3))),
